@@ -119,7 +119,7 @@ class Part:
     (shard, nshards) -> iterable, exhaustive) feeding ``run(case, rec)``."""
 
     def __init__(self, name, run, strategy=None, enumerate=None, n=100, shards=None,
-                 budget_s=None, human=None, exhaustive=False, stateful=None):
+                 budget_s=None, human=None, exhaustive=False, reduce=None):
         self.name = name
         self.run = run
         self.strategy = strategy
@@ -129,6 +129,7 @@ class Part:
         self.budget_s = budget_s
         self.human = human or (lambda case: repr(case)[:2000])
         self.exhaustive = exhaustive
+        self.reduce = reduce      # optional (case, sig) -> smaller case, replaces Hypothesis shrinking
 
 
 def _hyp_settings(n, shrink=False):
@@ -203,6 +204,8 @@ def shrink_violation(mod_name, prop, tier, seed, part_index, shard, nshards, sig
     mod = importlib.import_module(mod_name)
     ctx = Ctx(prop, tier, seed)
     part = mod.parts(ctx)[part_index]
+    if part.reduce is not None:
+        return None
     if part.strategy is None:
         return None
     best = {}
@@ -230,6 +233,22 @@ def shrink_violation(mod_name, prop, tier, seed, part_index, shard, nshards, sig
     except BaseException:
         pass
     return best.get('v')
+
+
+def reduce_violation(mod_name, prop, tier, seed, v):
+    """Custom (delta-debugging) reduction of a recorded violation."""
+    import importlib
+    mod = importlib.import_module(mod_name)
+    part = mod.parts(Ctx(prop, tier, seed))[v['part_index']]
+    if part.reduce is None:
+        return None
+    try:
+        case = part.reduce(pickle.loads(v['case']), v['sig'])
+        rec = Recorder()
+        part.run(case, rec)
+        return rec.violations.get(v['sig'])
+    except Exception:
+        return None
 
 
 def load_known():
@@ -361,7 +380,12 @@ def main_check(prop, mod_name, tier, seed, replay=None):
         if os.environ.get('SV_NO_SHRINK') != '1':
             with ProcessPoolExecutor(max_workers=NPROC, mp_context=mpctx) as ex:
                 futs = {}
+                for v in sorted(new.values(), key=lambda v: len(v['case']))[:40]:
+                    if parts[v['part_index']].reduce is not None:
+                        futs[v['sig']] = ex.submit(reduce_violation, mod_name, prop, tier, seed, v)
                 for v in todo:
+                    if v['sig'] in futs:
+                        continue
                     futs[v['sig']] = ex.submit(shrink_violation, mod_name, prop, tier, seed,
                                                v['part_index'], v['shard'], v['nshards'], v['sig'],
                                                60 if tier == 'quick' else 240)
